@@ -310,7 +310,7 @@ func TestVerifH4(t *testing.T) {
 		})
 	}
 	// real time: something else completes the transaction while a retransmission's socket write is in progress
-	for _, mode := range []string{"response", "close", "response", "close"} {
+	for _, mode := range []string{"response", "close", "response", "close", "first-write-slow", "first-write-slow"} {
 		h4WriteRace(vt, mode)
 	}
 }
@@ -335,6 +335,19 @@ func h4WriteRace(vt *vhT, mode string) {
 		nth := sends
 		sends++
 		mu.Unlock()
+		if mode == "first-write-slow" {
+			// the FIRST transmission takes a while to leave the socket and its answer is handled (by the read loop's goroutine)
+			// before WriteTo returns; every later transmission is lost: the transaction must complete with that answer
+			if nth == 0 {
+				m := &stun.Message{Raw: append([]byte{}, b...)}
+				if m.Decode() == nil {
+					resp, _ := stun.Build(stun.NewTransactionIDSetter(m.TransactionID), stun.BindingSuccess)
+					go func() { _, _ = c.HandleInbound(resp.Raw, srv.addr) }()
+				}
+				time.Sleep(80 * time.Millisecond)
+			}
+			return nil
+		}
 		if nth != 1 {
 			return nil
 		}
@@ -375,6 +388,14 @@ func h4WriteRace(vt *vhT, mode string) {
 	case res = <-done:
 	case <-time.After(3 * time.Second):
 		vt.Alarm("txn-completion-race", "mode=%s: PerformTransaction did not return", mode)
+	}
+	if mode == "first-write-slow" {
+		mu.Lock()
+		ns := sends
+		mu.Unlock()
+		if res != "response" || ns != 1 {
+			vt.Alarm("txn-completion-race", "mode=%s: the answer to the first transmission arrived while it was being written: result=%s after %d transmissions (want response after 1)", mode, res, ns)
+		}
 	}
 	time.Sleep(250 * time.Millisecond)
 	buf := make([]byte, 1<<20)
